@@ -275,6 +275,13 @@ def step (w : World) (ws : List String) : World × List String :=
   | ["X", c, fl] =>
     let cfg := cfgInit w.decls (Flags.ofNat fl.toNat!)
     (setCtx w c.toNat! (some { cfg := cfg }), ["R 0"])
+  -- XP: the caller's declarations are overwritten and freed right after cfg_init; the model never looks at them again anyway
+  | ["XP", c, fl] =>
+    let cfg := cfgInit w.decls (Flags.ofNat fl.toNat!)
+    (setCtx w c.toNat! (some { cfg := cfg }), ["R 0"])
+  | ["XP", c, fl, c2] =>
+    let cfg := cfgInit w.decls (Flags.ofNat fl.toNat!)
+    (setCtx (setCtx w c.toNat! (some { cfg := cfg })) c2.toNat! (some { cfg := cfg }), ["R 0"])
   | ["SP", c, d] => withCtx c fun ci x =>
       (setCtx w ci (some { x with dirs := tildeExpand (mkPEnv w []) (bytesOfHex d) :: x.dirs }), ["R 0"])
   | ["PB", c, t] => withCtx c fun ci x => emitParse w ci x (parseBuf orc (mkPEnv w x.dirs) x.cfg (bytesOfHex t) w.k)
